@@ -157,8 +157,8 @@ CFG = dict(
          "aggregations and order statistics must be IDENTICAL (bit for bit) to those of the base. Two series: pairs (null, null), "
          "(null, v), (v, null) with arbitrary partner v inserted at every pattern (exhaustive for valid pairs up to length 3, "
          "random otherwise): vcov / vcorr_pearson identical for every min_periods. nt=0 marks empty series / no variant.",
-    theorem_hint="Props/C08.v: C08_encoding_* (rolling families, aggregations, order statistics, maps), C08_output_encoding, "
-                 "C08_transparent_* (null insertion)",
+    theorem_hint="Props/C08.v: C08_encoding_* (rolling families, aggregations, order statistics, maps, vrank, partitions), "
+                 "C08_output_encoding, C08_transparent_* (null insertion; quantile at every carrier; rank)",
     level_text="Proof (Coq): (a) for any two null dictionaries and inputs with pointwise equal option views every null-aware "
                "model function returns the same result: the add-emit-remove rolling families (moments, ewm, wma, z-score, "
                "trend regressions, cov / corr / regx) by a generic relational theorem on the driver (every window, both bodies), "
@@ -169,13 +169,28 @@ CFG = dict(
                "result into f64 / f32 / Option<f64> / Option<i32> maps null to null and non-null to non-null; (c) inserting nulls "
                "at arbitrary positions (inductive relation NullInsert; also as a boolean pattern) leaves the valid elements, hence "
                "count_valid, vsum, vmean, vvar, vstd, vskew, vkurt, vmin, vmax, vquantile, vmedian, vpercentile_of unchanged, and "
-               "pairwise insertion leaves vcov / vcorr_pearson unchanged, for all series, patterns and min_periods. Tied to the "
+               "pairwise insertion leaves vcov / vcorr_pearson unchanged, for all series, patterns and min_periods. "
+               "Extension (Proofs/EncRank.v, TransQuantile.v, TransRank.v): the rank map vrank returns EQUAL outputs under any "
+               "two dictionaries whose `==` agree on non-null elements (relational induction through the run-length loop; the "
+               "argsorts are equal index vectors; the statement without the hypothesis on `==` is proved FALSE), for every carrier "
+               "and pct / rev; varg_partition returns equal index lists and vpartition outputs with equal option views (same "
+               "panic otherwise) under re-encoding; quantile / median transparency is lifted from option R to EVERY carrier "
+               "without any order law (isort_split: the sort model puts the sorted non-null elements, the same term for both "
+               "series, before the nulls): every successful result on the original series is the result on the series with "
+               "nulls inserted, and outright equality under the index law ceil((n-1) q) <= n-1 (proved at option R); inserting "
+               "nulls into a series leaves the rank of every original element unchanged and gives the inserted positions the "
+               "null rank (option R, from the C12 characterisation: vrank is a map of a function of the valid elements); the "
+               "option view of vpartition is a function of the non-null elements only, hence unchanged by null insertion "
+               "(every carrier, T::none() a null). "
+               "Still partial: rank transparency at a generic carrier (the length-1 early return writes the literal 1.0 where "
+               "the loop computes 1 as f64 [/ 1 as f64]: needs laws of the numeric class); the index law at binary64 is not "
+               "proved in Coq (monotone rounding), so at binary64 quantile transparency is the `Ok r` form. Tied to the "
                "code by relational runs of the public API under every encoding and every insertion pattern, plus the model tie.",
-    level_note="Trusted: Coq kernel (the C08 theorems are axiom-free except the quantile corollaries stated over option R); the "
+    level_note="Trusted: Coq kernel (the C08 theorems are axiom-free except the quantile / rank corollaries stated over option R); the "
                "hand-written models of C01/C03/C04/C11/C12/C13/C15 reused here; canonical nulls only (DESIGN 5.4); the comparator's "
                "binary32 rounding (Python struct) and i32 truncation used to canonicalise f32 / Option<i32> outputs.",
     exhaustive=False,
-    trusted=["Reals axioms of the Coq standard library under the quantile / median corollaries stated over option R",
+    trusted=["Reals axioms of the Coq standard library under the quantile / median / rank corollaries stated over option R",
              "tools/propcfg/C08.py canonicalises f32 output by rounding the f64 reference to binary32 (struct.pack 'f') and "
              "Option<i32> output by truncation toward zero with saturation (Rust `as i32`)"],
     assumptions=["inputs use canonical nulls only (DESIGN 5.4): no Some(NaN) in Option<f64> series",
